@@ -135,7 +135,9 @@ def run(rep: Report, tier: str) -> None:
             bad_callers = []
             for rq in gvar.readers:
                 for cq in cg.callers_closure([rq]) | {rq}:
-                    if cq in reach and cq != rq and not cq.endswith(tuple(rnames)):
+                    # visit_* methods of the interpreter / transpiler are dispatched dynamically (not call-graph edges): they run on every API call
+                    dispatched = cq.startswith(("vtlengine.duckdb_transpiler.Transpiler.", "vtlengine.Interpreter.", "vtlengine.duckdb_transpiler.io."))
+                    if (cq in reach or dispatched) and cq != rq and not cq.endswith(tuple(rnames)):
                         bad_callers.append(cq)
             direct = [cq for cq in reach if any(isinstance(c_, ast.Call) and isinstance(c_.func, ast.Attribute) and c_.func.attr in rnames for c_ in walk_no_nested(P.functions[cq].node))] if rnames else []
             if not bad_callers and not direct:
